@@ -89,6 +89,8 @@ class JSONRPC2Connection:
         # line for the JSON request.
         while line != "\r\n":
             line = self.conn.readline()
+            if line == "":
+                raise EOFError()
             # Header fields can come in any order
             if length is None:
                 length = self._read_header_content_length(line)
